@@ -217,6 +217,7 @@ var sanitizers = map[string]map[string]string{
 var sanitizerPatterns = map[string]string{
 	`(password=).*?(&|$)`: "passRE",
 	`(?s)<key>.*</key>`:   "keyRE",
+	`(?s)<(?:[^\s<>/:]+:)?key(?:\s[^>]*)?>(?:.*</(?:[^\s<>/:]+:)?key\s*>|.*$)`: "keyRE",
 }
 
 // regexpOf: variable object -> pattern literal of `regexp.MustCompile(<literal>)` it is defined with
